@@ -17,6 +17,7 @@ func propC01(c *Ctx) propInfo {
 	c.bocHeaderAgreement()
 	c.bocDescriptors()
 	c.storedHashCount()
+	c.parserOwnsBytes()
 	c.bocDepthLimitsAgree()
 	if f := c.mustFn("E1.P6-forward-refs", "boc", "DeserializeBoc"); f != nil {
 		env := &e1env{cfg: e1cfg{maxDepth: 0, exc: excC07}, ci: &callIndex{}, reach: map[*ssa.Function]bool{}}
@@ -609,4 +610,32 @@ func (c *Ctx) bocDepthLimitsAgree() {
 	}
 	mp, ms, mh := maxOf(p, false), maxOf(s, false), maxOf(h, true)
 	c.check(mp == ms && ms == mh && mp > 0, R, "parser, serialiser and hasher accept the same maximal depth", token.NoPos, fmt.Sprintf("all three accept depth <= %d", mp), fmt.Sprintf("depth limits disagree: parser accepts <= %d, serialiser <= %d, hasher <= %d: the library could serialise a tree it cannot parse back (or vice versa)", mp, ms, mh))
+}
+
+// parserOwnsBytes: the cells produced by the parser do not alias the caller's input: the cell data is
+// copied into a buffer made by SetTopUppedArray before the completion tag is cleared in place.
+func (c *Ctx) parserOwnsBytes() {
+	const R = "E10.parser-owns-bytes"
+	f := c.mustFn(R, "boc", "BitString.SetTopUppedArray")
+	if f == nil {
+		return
+	}
+	okv := false
+	for _, st := range fieldStores(f, "buf") {
+		_, fresh := st.Val.(*ssa.MakeSlice)
+		if al, ok := st.Val.(*ssa.Slice); ok {
+			if a, ok := al.X.(*ssa.Alloc); ok && a.Comment == "makeslice" {
+				fresh = true
+			}
+		}
+		okv = fresh
+	}
+	copied := false
+	for _, cl := range callsIn(f) {
+		if b, ok := cl.Common().Value.(*ssa.Builtin); ok && b.Name() == "copy" {
+			copied = strings.Join(leaves(cl.Common().Args[1]), ",") == "arr"
+		}
+	}
+	c.check(okv && copied, R, "SetTopUppedArray copies the caller's bytes into its own buffer", f.Pos(), "s.buf = make(len(arr)); copy(s.buf, arr)", "SetTopUppedArray keeps the caller's slice as the bit string's buffer: clearing the completion tag then modifies the bag-of-cells bytes the caller passed in (a second parse of the same bytes yields different cells, the CRC no longer matches)")
+	c.floor(R, 1)
 }
